@@ -412,7 +412,7 @@ def rewrite_body(S, b0, b1, opts, log):
         ed.add(toks[k].start, toks[c].end, repl, "R11",
                f"{S.rel}:{ln} block statement `{anchor} {{..}}` ({n_lines} lines) replaced by `{repl}` (over-approximation)")
     # ------------- R11: one statement replaced by a call to a contracted stub ------------------
-    for anchor, repl in opts.get("replace_stmt", []):
+    for anchor, repl, pin in opts.get("replace_stmt", []):
         atoks = [t.text for t in lex(anchor)]
         hits = [k for k in range(b0, b1 - len(atoks)) if [t.text for t in toks[k:k + len(atoks)]] == atoks]
         if len(hits) != 1:
@@ -430,7 +430,26 @@ def rewrite_body(S, b0, b1, opts, log):
             z += 1
         ln = line_of(src, toks[k].start)
         orig = " ".join(text_of(src, toks, k, z + 1).split())
-        ed.add(toks[k].start, toks[z].end, repl, "R11", f"{S.rel}:{ln} statement `{orig[:160]}` replaced by `{repl}` (assumed contract)")
+        # `pin`: the stub's contract was written for exactly this statement; any other text is a lost anchor
+        import hashlib
+        # brace-delimited blocks (closure bodies, struct literals) are blanked first: the bodies of
+        # closures are verified separately as slices, the pin covers the skeleton of the statement
+        skel, depth_b = [], 0
+        for ch in orig:
+            if ch == "{":
+                depth_b += 1
+                if depth_b == 1:
+                    skel.append("{}")
+                continue
+            if ch == "}":
+                depth_b -= 1
+                continue
+            if depth_b == 0:
+                skel.append(ch)
+        got = hashlib.sha1("".join(skel).encode("utf-8")).hexdigest()[:8]
+        if pin and pin != got:
+            raise ExtractError(f"lost anchor: the statement replaced at `{anchor}` changed (pin {pin}, now {got}): `{orig[:200]}`")
+        ed.add(toks[k].start, toks[z].end, repl, "R11", f"{S.rel}:{ln} statement `{orig[:160]}` (pin {got}) replaced by `{repl}` (assumed contract)")
     # ------------- R4: contract on a closure (header replaced, body kept verbatim in braces) ---
     for anchor, newhead in opts.get("closures", []):
         atoks = [t.text for t in lex(anchor)]
@@ -490,7 +509,8 @@ def rewrite_body(S, b0, b1, opts, log):
             raise ExtractError(f"lost anchor: loop #{n} not found for loop_end_proof")
         kw, ob = loops[n - 1]
         cb = match_close(toks, ob)
-        ed.add(toks[cb].start, toks[cb].start, "\nproof {\n" + ptxt + "}\n", "R4",
+        # a `;` first: the loop body may end in an expression without one (an empty statement is harmless)
+        ed.add(toks[cb].start, toks[cb].start, "\n;proof {\n" + ptxt + "}\n", "R4",
                f"{S.rel}:{line_of(src, toks[cb].start)} ghost proof block at the end of loop #{n}")
     text = ed.apply(src, toks[b0].start, toks[b1].end)
     if opts.get("r14"):
@@ -877,10 +897,10 @@ def parse_template(path):
                     raise ExtractError(f"{path}:{i+1}: bad elide_block")
                 cur.setdefault("elide_block", []).append((m.group(1), m.group(2)))
             elif cmd.startswith("replace_stmt "):
-                m = re.match(r"replace_stmt\s+<<(.*?)>>\s*==>\s*<<(.*)>>\s*$", cmd)
+                m = re.match(r"replace_stmt\s+<<(.*?)>>\s*==>\s*<<(.*?)>>\s*(?:pin\s+([0-9a-f]{8}))?\s*$", cmd)
                 if not m:
                     raise ExtractError(f"{path}:{i+1}: bad replace_stmt")
-                cur.setdefault("replace_stmt", []).append((m.group(1), m.group(2)))
+                cur.setdefault("replace_stmt", []).append((m.group(1), m.group(2), m.group(3)))
             elif cmd.startswith("closure_spec "):
                 m = re.match(r"closure_spec\s+<<(.*?)>>\s*==>\s*<<(.*)>>\s*$", cmd)
                 if not m:
